@@ -564,7 +564,7 @@ class Task(object):
 
         if not state:
             states = rps.FINAL
-        if not isinstance(state, list):
+        elif not isinstance(state, list):
             states = [state]
         else:
             states = state
@@ -583,6 +583,10 @@ class Task(object):
 
         start_wait = time.time()
         while self.state not in states:
+
+            # a final task will never reach any other state
+            if self.state in rps.FINAL:
+                break
 
             time.sleep(0.1)
 
